@@ -2,6 +2,7 @@ package main
 
 import (
 	"fmt"
+	"os"
 	"sort"
 	"strings"
 
@@ -59,9 +60,10 @@ func (tk *TKAI) outcomesFrom(fn *ssa.Function, b *ssa.BasicBlock, cur KSet) []st
 
 // expandReturns: the event "return without consuming" replaced by what every caller of fn does after the call, with the
 // same current token (one level).
-func (tk *TKAI) expandReturns(fn *ssa.Function, events []string, cur KSet) []string {
+func (tk *TKAI) expandReturns(fn *ssa.Function, events []string, cur KSet) ([]string, bool) {
 	ev := map[string]bool{}
 	expand := false
+	allDecided := true
 	for _, e := range events {
 		if e == "return without consuming" {
 			expand = true
@@ -78,27 +80,51 @@ func (tk *TKAI) expandReturns(fn *ssa.Function, events []string, cur KSet) []str
 			call, ok := site.(*ssa.Call)
 			if !ok || call.Parent() == nil || call.Parent().Blocks == nil {
 				ev["return without consuming"] = true
+				allDecided = false
 				continue
 			}
 			cf := call.Parent()
 			ci := &ctxInfo{key: tkCtx{fn: cf, entry: "c11x", clean: true}, fn: cf, entry: kTop(), consts: map[int]string{}}
-			res, _ := tk.flowAfter(ci, call, newTState(cur))
+			res, tail := tk.flowAfter(ci, call, newTState(cur))
 			if res == nil {
 				ev["return without consuming"] = true
+				allDecided = false
 				continue
+			}
+			n := 0
+			// what happens in the rest of the call's own block is not in the flow result: every state gone means every
+			// path raised there (expect(")") at <eof> or ';'); a block that ends in a return hands the states back
+			if len(tail) == 0 {
+				ev["raise"] = true
+				n++
+			} else if _, isRet := call.Block().Instrs[len(call.Block().Instrs)-1].(*ssa.Return); isRet {
+				for _, ts := range tail {
+					if ts != nil && !ts.consumed {
+						ev["return without consuming (from "+funcName(cf)+")"] = true
+					}
+					n++
+				}
 			}
 			for in := range res.consumedAt {
 				ev["consume@"+tk.w.pos(in.Pos())+"#"+in.String()] = true
+				n++
 			}
 			for _, rs := range res.ret {
 				if !rs.st.consumed {
 					ev["return without consuming (from "+funcName(cf)+")"] = true
 				}
+				n++
 			}
 			for _, st := range res.rz {
 				if st != nil && !st.consumed {
 					ev["raise"] = true
 				}
+				if st != nil {
+					n++
+				}
+			}
+			if n == 0 {
+				allDecided = false // nothing is known about what this caller does next
 			}
 		}
 	}
@@ -107,7 +133,7 @@ func (tk *TKAI) expandReturns(fn *ssa.Function, events []string, cur KSet) []str
 		out = append(out, e)
 	}
 	sort.Strings(out)
-	return out
+	return out, allDecided
 }
 
 func ruleC11R1(w *World, r *Report) {
@@ -167,8 +193,15 @@ func ruleC11R1(w *World, r *Report) {
 			if strings.Join(a, "|") != strings.Join(s, "|") {
 				// a list loop split off into a helper returns at <eof> where it goes on (and fails) at ';': what counts is
 				// what the callers do with the return — the same closing token is demanded either way
-				ae := acc(tk.expandReturns(fn, atEOF, kIn(eofAtom)))
-				se := acc(tk.expandReturns(fn, atSemi, kIn(";")))
+				aev, okA := tk.expandReturns(fn, atEOF, kIn(eofAtom))
+				sev, okS := tk.expandReturns(fn, atSemi, kIn(";"))
+				ae, se := acc(aev), acc(sev)
+				if !okA || !okS {
+					ae, se = []string{"?eof"}, []string{"?semi"} // a caller whose continuation could not be followed: no second chance
+				}
+				if os.Getenv("C11DEBUG") != "" {
+					fmt.Printf("C11DEBUG %s: eof %v -> %v ; semi %v -> %v\n", funcName(fn), atEOF, ae, atSemi, se)
+				}
 				if strings.Join(ae, "|") == strings.Join(se, "|") {
 					a, s = ae, se
 				}
